@@ -105,6 +105,23 @@ def fam_literal_union_member(mm):
     return m
 
 
+def fam_variant_literals(mm):
+    """unions of anonymous literals of the `notebookSelector` shape of LSP 3.17: every member of the first alternative occurs in all of
+    them and is optional somewhere ("variant" literals, which the .NET plugin merges into one record), LATER alternatives declare more"""
+    m = copy.deepcopy(mm)
+    cells = {"kind": "array", "element": {"kind": "literal", "value": {"properties": [{"name": "language", "type": STR}]}}}
+    m["structures"].append({"name": "ZzVariantOwner", "properties": [
+        {"name": "selector", "type": {"kind": "array", "element": {"kind": "or", "items": [
+            {"kind": "literal", "value": {"properties": [{"name": "notebook", "type": STR}, {"name": "cells", "type": cells, "optional": True}]}},
+            {"kind": "literal", "value": {"properties": [{"name": "notebook", "type": STR, "optional": True}, {"name": "cells", "type": cells},
+                                                          {"name": "executionSummarySupport", "type": BOOL, "optional": True}]}}]}}},
+        {"name": "single", "type": {"kind": "or", "items": [
+            {"kind": "literal", "value": {"properties": [{"name": "alpha", "type": UINT, "optional": True}, {"name": "beta", "type": STR}]}},
+            {"kind": "literal", "value": {"properties": [{"name": "alpha", "type": UINT}, {"name": "beta", "type": STR, "optional": True}, {"name": "gamma", "type": STR}]}}]},
+         "optional": True}]})
+    return m
+
+
 def fam_keywords(mm):
     m = copy.deepcopy(mm)
     kws = [k for k in keyword.kwlist if k.islower()]
@@ -189,6 +206,7 @@ def systematic(mm):
         ("msgs-no-typename", fam_messages(mm, False)),
         ("remove-optional", fam_remove_optional(mm)),
         ("literal-union-member", fam_literal_union_member(mm)),
+        ("variant-literals", fam_variant_literals(mm)),
         ("keywords", fam_keywords(mm)),
         ("inherit-redeclare", fam_inherit_redeclare(mm)),
         ("marks", fam_marks(mm)),
